@@ -191,6 +191,9 @@ func mk6req(c *Ctx, duid dhcpv6.DUID, withIANA bool, relay int, peer net.IP, cll
 	return out
 }
 
+// autorefresh set-ups made by this process so far (each holds an inotify instance for good)
+var watchersUsed int
+
 func runFile(c *Ctx) {
 	c.SetCases("From Verif Require Import Base Msg4 Msg6 Setup PluginRun FilePlugin FileRun.", "FileRun.mismatches")
 	c.shard = 25
@@ -251,6 +254,18 @@ func runFile(c *Ctx) {
 			} else {
 				in.h4, err = file.Plugin.Setup4(args...)
 			}
+			if err != nil && autorefresh && (strings.Contains(err.Error(), "too many open files") || strings.Contains(err.Error(), "failed to create watcher")) {
+				// the kernel's per-user limit of inotify instances (the plugin never closes a watcher, and this
+				// process has set up many): not the plugin's verdict on the file - set up without autorefresh
+				c.Count("setup:watcher-limit-reached")
+				autorefresh = false
+				watchersUsed = 1 << 30
+				if v6 {
+					in.h6, err = file.Plugin.Setup6(in.path)
+				} else {
+					in.h4, err = file.Plugin.Setup4(in.path)
+				}
+			}
 			in.ok = err == nil
 			ops = append(ops, fmt.Sprintf("FSetup %s (Some %s)", vBool(v6), vStr(in.content)))
 			opS = append(opS, fmt.Sprintf("Setup%s autorefresh=%v file=%q", map[bool]string{true: "6", false: "4"}[v6], autorefresh, in.content))
@@ -267,7 +282,13 @@ func runFile(c *Ctx) {
 			c.Count(fmt.Sprintf("setup:v6=%v,ok=%v", v6, in.ok))
 			return in
 		}
-		auto := r.Pct(60)
+		auto := r.Pct(60) && watchersUsed < 48 // (inotify instances are limited per user, 128 by default, and are never released by the plugin)
+		if auto {
+			watchersUsed++
+			if dual {
+				watchersUsed++
+			}
+		}
 		first := setup(r.Bool() && !dual, r.Pct(25), auto)
 		insts = append(insts, first)
 		if dual {
@@ -286,7 +307,7 @@ func runFile(c *Ctx) {
 			if !in.ok {
 				continue
 			}
-			if auto && r.Pct(30) {
+			if auto && watchersUsed < 1<<30 && r.Pct(30) {
 				// rewrite the file in place (one write, never shorter than before), wait for the watcher
 				bad := r.Pct(40)
 				nc := genLeaseFile(c, in.v6, macs, bad)
